@@ -105,6 +105,11 @@ L2_REPCARD = [RP + n for n in ["andCardinality_spec", "orCardinality_spec", "int
     ["RModel.Impl.Cont.andCardinalityQ_spec", "RModel.Impl.Cont.intersectsQ_spec", "RModel.Impl.Cont.equalsQ_spec"]
 L1_XFORM = ["RModel.BSet.mem_shift", "RModel.BSet.canon_shift", "RModel.BSet.mem_flipRange", "RModel.BSet.canon_xor"]
 
+L2_BULK_ADD = [RP + n for n in ["addMany_eq_foldl", "toBSet_addMany", "wf_addMany", "mem_addMany", "toBSet_bitmapOf", "wf_bitmapOf",
+                                "addManyWriteFlags_false", "addMany_untouched", "addMany_slots"]]
+L2_BULK_HEAP = [RP + n for n in ["toBSet_heapOr", "wf_heapOr", "toBSet_heapXor", "wf_heapXor", "toBSet_heapOr_perm",
+                                 "toBSet_heapXor_perm", "heapOr_share", "heapXor_share"]] + ["RModel.Impl.RepBulk.pqReduce_spec"]
+L2_BULK_ARR = [RP + n for n in ["toArray_spec", "toArray_length", "toExistingArray_spec", "stats_spec"]] + ["RModel.Impl.Cont.fill_spec"]
 L2_CKSUM = ["RModel.Impl.Rep." + n for n in ["checksum_congr", "checksum_clone", "checksum_cloneSrc", "checksum_asDecoded",
                                               "checksum_roundtrip", "checksum_frozenOf", "checksum_frozen_roundtrip"]]
 C16_OWNS = {"off", "off32", "sflip", "eq", "dense", "fromdense", "frombitset", "densechk", "dig",
@@ -116,13 +121,13 @@ PROPS = {
             "modules": DEFAULT_MODULES + [FACTS, PINS_MOD, FASTEQ_MOD, "RProofs.RepQuery", "RProofs.ContOps", "RProofs.RepOps", "RProofs.ContMut", "RProofs.RepMut"],
             "owns": {"and", "or", "xor", "andnot", "iand", "ior", "ixor", "iandnot", "andcard", "orcard", "isect", "eq", "dig",
                      "kern", "popcnt", "l2op", "l2iop", "l2q2"}},
-    "C02": {"suites": [("hist", 1.0), ("kernmut", 0.4), ("l2mut", 0.6)], "theorems": L1_MUT + L1_ALGEBRA[:3] + F_THRESH + L2_MUT + L2_REPMUT + PINS,
-            "modules": DEFAULT_MODULES + [FACTS, PINS_MOD, "RProofs.ContMut", "RProofs.RepMut"],
+    "C02": {"suites": [("hist", 1.0), ("kernmut", 0.4), ("l2mut", 0.6), ("l2bulk", 0.5)], "theorems": L1_MUT + L1_ALGEBRA[:3] + F_THRESH + L2_MUT + L2_REPMUT + PINS + L2_BULK_ADD,
+            "modules": DEFAULT_MODULES + [FACTS, PINS_MOD, "RProofs.ContMut", "RProofs.RepMut", "RProofs.RepBulk"],
             "owns": {"new", "add", "cadd", "addint", "addmany", "addmanyfrom", "rem", "crem", "addr", "remr", "flip", "clear", "opt", "clone",
-                     "cowclone", "detach", "setcow", "dig", "card", "empty", "of", "kern", "l2mut"}},
-    "C03": {"suites": [("query", 1.0), ("kernq", 0.3), ("eqpairs", 0.5), ("kernq2", 0.3), ("l2q", 0.7)], "theorems": L1_QUERY + L2_QUERY + L2_REPQ + L2_CKSUM,
-            "modules": DEFAULT_MODULES + ["RProofs.ContQuery", "RProofs.ContQueryNumRuns", "RProofs.RepQuery", "RProofs.Checksum"],
-            "owns": {"card", "empty", "has", "min", "max", "rank", "sel", "cir", "iwi", "eq", "toarr", "toexarr", "chkeq", "dig", "kern", "mkrepr", "l2q", "l2q2", "l2cksum"}},
+                     "cowclone", "detach", "setcow", "dig", "card", "empty", "of", "kern", "l2mut", "l2addmany", "l2bitmapof"}},
+    "C03": {"suites": [("query", 1.0), ("kernq", 0.3), ("eqpairs", 0.5), ("kernq2", 0.3), ("l2q", 0.7), ("l2bulk", 0.3)], "theorems": L1_QUERY + L2_QUERY + L2_REPQ + L2_CKSUM + L2_BULK_ARR,
+            "modules": DEFAULT_MODULES + ["RProofs.ContQuery", "RProofs.ContQueryNumRuns", "RProofs.RepQuery", "RProofs.Checksum", "RProofs.RepBulk"],
+            "owns": {"card", "empty", "has", "min", "max", "rank", "sel", "cir", "iwi", "eq", "toarr", "toexarr", "chkeq", "dig", "kern", "mkrepr", "l2q", "l2q2", "l2cksum", "l2toarr", "l2toex", "l2stats"}},
     "C04": {"suites": [("iter", 1.0), ("iterun", 1.0), ("l2iter", 0.6), ("l2iter2", 0.5)], "modules": DEFAULT_MODULES + ["RProofs.Iter", "RProofs.IterAdv", "RProofs.IterRev", "RProofs.IterMany", "RProofs.Iter2"],
             "theorems": L1_NBR[:4] + ["RModel.BSet.rankLt_eq_count", "RModel.BSet.card_eq_rankLt", "RModel.BSet.select_spec",
                                       "RModel.BSet.select_none", "RModel.BSet.mem_toList", "RModel.BSet.toList_sorted",
@@ -165,15 +170,15 @@ PROPS = {
                          "RModel.Impl.decoded_valid_is_wf", "RModel.Impl.validate_implies_wf_of_decoded",
                          "RModel.Impl.frozenView_no_panic", "RModel.BSet.canon_ext"] + F_SERIAL,
             "modules": DEFAULT_MODULES + [FACTS, "RProofs.Properties.C09", "RProofs.Properties.C05", "RProofs.Properties.C13"], "owns": None},
-    "C11": {"suites": [("agg", 1.0), ("kernspecial", 0.6), ("l2agg", 0.7), ("l2par", 0.5)], "theorems": L1_AGG + L1_ALGEBRA + L2_AGG + PINS + L2_PAR[:8],
-            "modules": DEFAULT_MODULES + ["RProofs.Agg", "RProofs.LazyOps", PINS_MOD, "RProofs.ParData"], "owns": set(AGG_OPS) | {"kern", "l2agg", "l2lazy", "l2par", "aggmany"}},
+    "C11": {"suites": [("agg", 1.0), ("kernspecial", 0.6), ("l2agg", 0.7), ("l2par", 0.5), ("l2bulk", 0.5)], "theorems": L1_AGG + L1_ALGEBRA + L2_AGG + PINS + L2_PAR[:8] + L2_BULK_HEAP,
+            "modules": DEFAULT_MODULES + ["RProofs.Agg", "RProofs.LazyOps", PINS_MOD, "RProofs.ParData", "RProofs.RepBulk"], "owns": set(AGG_OPS) | {"kern", "l2agg", "l2lazy", "l2par", "aggmany", "l2heap"}},
     # C12: schedule independence / termination / no leak (sched), concurrent decoding through the pools (concdec); the
     # protocol theorems are about the transition systems of Impl/Par.lean, pinned to the source by the skeleton obligations
     "C12": {"suites": [("sched", 1.0), ("l2par", 0.5)], "theorems": PAR + L1_AGG[:3] + L2_PAR,
-            "modules": DEFAULT_MODULES + ["RProofs.Agg", "RProofs.Par", "RProofs.Facts.Skeleton", "RProofs.ParData"], "owns": {"sched", "concdec", "concagg"},
+            "modules": DEFAULT_MODULES + ["RProofs.Agg", "RProofs.Par", "RProofs.Facts.Skeleton", "RProofs.ParData"], "owns": {"sched", "concdec", "concagg", "concagg64"},
             # everything a race-detector job reports is C12's (also on the goroutine-parallel paths of the bit-sliced indexes and
             # of the 64-bit bitmap, whose results are checked by C17/C19/C20); elsewhere C12 owns its own commands only
-            "owns_fn": lambda op, mm, suite: suite.startswith("race:") or op in ("sched", "concdec", "concagg", "l2par"),
+            "owns_fn": lambda op, mm, suite: suite.startswith("race:") or op in ("sched", "concdec", "concagg", "concagg64", "l2par"),
             "race_suites": [("sched", 1.0), ("bsi", 1.0), ("bsiq", 0.5), ("bsix", 0.3), ("r64", 0.5), ("agg", 0.5)],
             "race_quick": [("sched", 0.3), ("bsi", 0.4), ("bsiq", 0.3), ("r64", 0.3)]},
     "C13": {"suites": [("frozen", 1.0), ("frozenmis", 0.5), ("serall", 1.0)], "corpus": ["corpus/C10/frozen-bitmap4096.txt"],
